@@ -97,7 +97,7 @@ def resolve(fn_key):
 
 POOL = ["x", "a1", "Ab_9", "-5", "+0", "007", "12", "0", "9223372036854775808", "", "ID", "`q`", '"q"', "[q]", "KEY", "unique",
         "a,b", "(", ")", ",", "x,", "NULL", "null", "Not", "max", "*", "'s'", "''", "a.b", "<", ">", "A<B>", "ARRAY", "array<int>",
-        "a=b", "=", ".", "desc", "ASC", "Primary", "CHECK", "default", "[]", "x y", " x ", "\t", "1_0", "-", "+", "e1", "ON", "$", "a`b"]
+        "a=b", "=", ".", "sq", "my", "post", "sql", "hql", "desc", "ASC", "Primary", "CHECK", "default", "[]", "x y", " x ", "\t", "1_0", "-", "+", "e1", "ON", "$", "a`b"]
 INTS = [-2 ** 63, -7, -1, 0, 1, 2, 7, 2 ** 31, 2 ** 63 - 1, 2 ** 63]
 
 
